@@ -147,6 +147,18 @@ def main(argv):
                                           "samples": [{"nondeterministic_seeds": nondet[:5]}]}, time.time() - t0, 0, ["determinism self-test FAILED"])
         return 2
 
+    # ---- 1b. regression: replay files of repaired findings must pass on the current tree
+    regress = sorted(f for f in os.listdir(os.path.join(ROOT, "findings")) if f.startswith(prop + "_") and f.endswith(".json")) \
+        if os.path.isdir(os.path.join(ROOT, "findings")) else []
+    regress_failed = []
+    for f in regress:
+        doc = json.load(open(os.path.join(ROOT, "findings", f)))
+        o = runner.run_one(lambda steps, _p=doc["probe_seed"]: run_steps(steps, _p), doc["steps"], wall=opts["wall"] * 2)
+        if not o.get("ok"):
+            harness_errors.append("regression %s: %s" % (f, o.get("err")))
+        elif o["res"]["verdict"] == "violation":
+            regress_failed.append((f, o["res"]["violation"]))
+
     # ---- 2. the seeded search
     results = {}
     budget = opts["budget"]
@@ -217,18 +229,22 @@ def main(argv):
 
     # ---- 4. evidence
     cov = coverage(prop, good, verdicts, results, time.time() - t0, harness_errors, known_hits, new_violations, unminimised)
-    write_evidence(prop, tier, base, cov, time.time() - t0, len(new_violations), assumptions(prop))
+    cov["regression_replays"] = {"run": len(regress), "failed": len(regress_failed)}
+    write_evidence(prop, tier, base, cov, time.time() - t0, len(new_violations) + len(regress_failed), assumptions(prop))
 
     # ---- 5. verdict
     for kid, h in known_hits.items():
         print("KNOWN-FINDING: property=%s %s [%s; seeds %s]" % (prop, h["entry"]["detail"], kid, h["seeds"][:3]))
+    for f, vio in regress_failed:
+        print("VIOLATION property=%s replay=%s" % (prop, os.path.join(ROOT, "findings", f)))
+        print("  repaired finding is back: class=%s %s" % (vio["class"], vio["detail"][:300]))
     for s, cls, path, vio in new_violations:
         print("VIOLATION property=%s replay=%s" % (prop, path))
         print("  seed=%d class=%s %s" % (s, cls, vio["detail"][:300]))
     print("%s %s: runs=%d ok=%d discard=%d violations=%d (new=%d) harness_errors=%d wall=%.0fs" % (
         prop, tier, len(results), verdicts.get("ok", 0), verdicts.get("discard", 0), verdicts.get("violation", 0), len(new_violations),
         len(harness_errors), time.time() - t0))
-    if new_violations:
+    if new_violations or regress_failed:
         return 1
     if harness_errors:
         for h in harness_errors[:10]:
